@@ -93,6 +93,17 @@ def run(ctx, case):
         groups = p.group(v_window=case["v"], h_window=case["h"], avoid_jack=case["jack"])
     except Exception:
         return
+    if ctx.cur_k is not None and ctx.cur_k % 3 == 0:
+        # the same Pattern asked again with other windows: the second grouping is judged on its own arguments
+        try:
+            # one argument changed at a time, then all of them, then the first question again
+            p.group(v_window=case["v"], h_window=case["h"], avoid_jack=not case["jack"])
+            p.group(v_window=case["v"] * 2 + 5, h_window=case["h"], avoid_jack=case["jack"])
+            p.group(v_window=case["v"], h_window=None if case["h"] is not None else 1, avoid_jack=case["jack"])
+            p.group(v_window=case["v"] * 2 + 5, h_window=None if case["h"] is not None else 1, avoid_jack=not case["jack"])
+            groups = p.group(v_window=case["v"], h_window=case["h"], avoid_jack=case["jack"])
+        except Exception:
+            return
     combo = PtnCombo(groups)
     kw = {}
     try:
@@ -109,6 +120,13 @@ def run(ctx, case):
         combo.combinations(size=case["size"], make_size2=case["make_size2"], **kw)
     except Exception:
         pass
+    if ctx.cur_k is not None and ctx.cur_k % 3 == 1:
+        # the same PtnCombo asked for another size, without and then again with the filters
+        try:
+            combo.combinations(size=2 + (case["size"] - 1) % 3, make_size2=not case["make_size2"])
+            combo.combinations(size=case["size"], make_size2=case["make_size2"], **kw)
+        except Exception:
+            pass
     if case["cls"] == "templates":
         t = case["template"]
         try:
